@@ -429,4 +429,21 @@ def SameConverter (a b : Cook.Converter Rat) : Prop :=
 instance (a b : Cook.Converter Rat) : Decidable (SameConverter a b) :=
   instDecidableAnd (dq := instDecidableAnd (dq := instDecidableAnd (dq := instDecidableAnd)))
 
+/-! ### "`c` is a converter the builder made of `files`" -/
+
+/-- `c` is the converter `ConverterBuilder` makes of the layers `files` (the build succeeds), read as the conversion
+    model's converter, and no ratio of the files is zero -/
+def Bld.BuiltAs (files : List (UnitsFile Rat)) (c : Cook.Converter Rat) : Prop :=
+  ∃ conv, build files = .ok conv ∧ ratiosNonzero files = true ∧ c = convOfBuilt conv
+
+theorem Bld.BuiltAs.sound {files : List (UnitsFile Rat)} {c : Cook.Converter Rat} (h : BuiltAs files c) : c.Sound := by
+  obtain ⟨conv, hb, hr, rfl⟩ := h; exact (bridge_build files conv hb hr).1
+
+theorem Bld.BuiltAs.wf {files : List (UnitsFile Rat)} {c : Cook.Converter Rat} (h : BuiltAs files c) : c.wf = true := by
+  obtain ⟨conv, hb, hr, rfl⟩ := h; exact (bridge_build files conv hb hr).2
+
+theorem Bld.BuiltAs.best_nonempty {files : List (UnitsFile Rat)} {c : Cook.Converter Rat} (h : BuiltAs files c)
+    (q : PhysQ) (s : System) : ((c.best q).conversions s).entries ≠ [] := by
+  obtain ⟨conv, hb, _, rfl⟩ := h; exact bridge_best_nonempty (bridge_builtOK files conv hb) q s
+
 end Cook
